@@ -108,9 +108,41 @@ def write_project(ex, name, rows, nlevel, rnd):
     open(os.path.join(dst, "til_%s.txt" % name), "w").write("\n".join(til) + "\n")
     open(os.path.join(dst, "fert_%s.txt" % name), "w").write("\n".join(fert) + "\n")
     open(os.path.join(dst, "irr_%s.txt" % name), "w").write("Field_ID  Ir N03 date\n          mm mg/l \nend\n")
+    write_custom_soils(dst, name)
     open(os.path.join(dst, "poly_%s.txt" % name), "w").write("Polyg SID  Field_ID  GH GL Ir comment\n10001 001 F1        99 99 0 c09\nend\n")
     end = rows[-1][3]
     return y0, end
+
+
+# custom profiles (csv soil file written into every generated project): SID "6NN" = N layers, root limit N;
+# "7NN" = root limit N-1; "8NN" = root limit N-2 — the soil's root limit at / next to the profile depth, where the
+# crop factor WUMAXPF/11 > 1 of the deep-rooting crops (WW 12, WRA 12, ZR 14, ZR chrnew 16) pushes
+# round(WURZMAX*WUMAXPF/11) above the number of layers and the clamp to N decides
+DEEP_CROPS = [("WW", ""), ("ZR", ""), ("WRA", ""), ("ZR", "chrnew")]
+CUSTOM_LAYERS = [5, 6, 8, 10, 12, 15, 18]
+
+
+def custom_soil_ids():
+    return ["%d%02d" % (6 + k, n) for n in CUSTOM_LAYERS for k in (0, 1, 2)]
+
+
+def write_custom_soils(dst, name):
+    out = ["SID,C_org,Texture,LayerDepth,BulkDensityClass,Stone,C/N,C/S,RootDepth,NumberHorizon,FieldCapacity,WiltingPoint,PoreVolume,"
+           "Sand,Silt,Clay,DrainageDepth,Drainage%,GroundWaterLevel"]
+    for sid in custom_soil_ids():
+        n, rd = int(sid[1:]), int(sid[1:]) - (int(sid[0]) - 6)
+        out.append("%s,0.90,SL2,03,3,00,10,00,%02d,02,22,09,38,73,21,06,20,00,99" % (sid, rd))
+        out.append("%s,0.30,SL4,%02d,3,00,10,00,,,22,12,43,61,27,12,20,00,   " % (sid, n))
+    open(os.path.join(dst, "soil_%s.csv" % name), "w").write("\n".join(out) + "\n")
+
+
+def batch_line(name, sp, y0, end):
+    custom = sp["soil"] in custom_soil_ids()
+    return ("project=%s WeatherFolder=%s soilId=%s fcode=109_120 plotNr=10001 Altitude=73 Latitude=52.6732 poligonID=29872 "
+            "CO2method=%d CropParameterFormat=%s CropFileFormat=csv %sAutoIrrigation=0 AutoFertilization=0 AutoSowingHarvest=0 AutoHarvest=0 "
+            "StartYear=%d ResultFileFormat=0 EndDate=%s resultfolder=R9/%s"
+            % (name, sp["weather"], sp["soil"], sp["co2"], "yml" if sp["yml"] else "txt", "SoilFileExtension=csv " if custom else "",
+               y0, _d(12, 31, end[2]), name))
 
 
 def weather_scenarios(ex, seed):
@@ -164,12 +196,9 @@ def plan(ctx):
         y0, end = write_project(ex, name, rows, nlevel, rnd)
         tag = "%s|soil=%s|%s|co2=%d|N=%d|%s" % ("+".join(c + (("_" + v) if v else "") for c, v in crops), soil, weather, co2, nlevel,
                                                  "yml" if yml else "txt")
-        line = ("project=%s WeatherFolder=%s soilId=%s fcode=109_120 plotNr=10001 Altitude=73 Latitude=52.6732 poligonID=29872 "
-                "CO2method=%d CropParameterFormat=%s CropFileFormat=csv AutoIrrigation=0 AutoFertilization=0 AutoSowingHarvest=0 AutoHarvest=0 "
-                "StartYear=%d EndDate=%s resultfolder=R9/%s" % (name, weather, soil, co2, "yml" if yml else "txt", y0, _d(12, 31, end[2]), name))
-        runs.append({"name": name, "rows": rows, "args": line, "yml": yml, "tag": tag, "end": end,
-                     "spec": {"crops": [list(c) for c in crops], "soil": soil, "weather": weather, "co2": co2, "nlevel": nlevel,
-                              "yml": yml, "start": start, "seed": ctx.seed}})
+        spec = {"crops": [list(c) for c in crops], "soil": soil, "weather": weather, "co2": co2, "nlevel": nlevel,
+                "yml": yml, "start": start, "seed": ctx.seed}
+        runs.append({"name": name, "rows": rows, "args": batch_line(name, spec, y0, end), "yml": yml, "tag": tag, "end": end, "spec": spec})
 
     if not ctx.thorough:
         # six short rotations mixing winter and summer crops; crops, soils, scenarios, N level drawn from the seed;
@@ -189,6 +218,15 @@ def plan(ctx):
         for i, crops in enumerate(picks):
             add(crops, soils[i], scen[(i + o1) % 4], 1 + (i + ctx.seed) % 3, nlevels[(i + o2) % 4],
                 (i + ctx.seed) % 2 == 0, 1981 + rnd.randrange(0, 20))
+        # deep-rooting crops on profiles whose root limit is the profile depth (or one / two layers less): historical
+        # weather and fertiliser so that the root front reaches the bottom
+        deep = DEEP_CROPS[:]
+        rnd.shuffle(deep)
+        n1, n2 = rnd.choice([10, 12, 15]), rnd.choice([5, 6, 8, 18])
+        add([("WW", ""), ("ZR", rnd.choice(["", "chrnew"]))], "6%02d" % n1, "historical", 1 + ctx.seed % 3, 150, ctx.seed % 2 == 1,
+            1981 + rnd.randrange(0, 20))
+        add([deep[0], deep[1]], "%d%02d" % (6 + rnd.randrange(3), n2), rnd.choice(["historical", "extreme"]), 1 + (ctx.seed + 1) % 3, 60,
+            ctx.seed % 2 == 0, 1981 + rnd.randrange(0, 20))
     else:
         allcrops = [(c, "") for c in SUMMER + WINTER] + [("SOY", v) for v in SOY_VARIETIES[1:]] + [("ZR", "chrnew")]
         k = 0
@@ -203,6 +241,11 @@ def plan(ctx):
                         add(crops, SOILS_ALL[(k + rep) % len(SOILS_ALL)], scen[(k + k // 4 + rep) % 4], co2,
                             nlevels[(k // 2 + rep) % 4], yml, 1981 + rnd.randrange(0, 22))
                         k += 1
+        # every deep-rooting crop on every custom profile (root limit N, N-1, N-2)
+        ids = custom_soil_ids()
+        for j, sid in enumerate(ids):
+            crops = [DEEP_CROPS[j % 4], DEEP_CROPS[(j + 1 + j // 4) % 4]]
+            add(crops, sid, scen[(j // 3) % 2 * 1], 1 + j % 3, [150, 60, 400][j % 3], j % 2 == 0, 1981 + rnd.randrange(0, 22))
     return ex, runs
 
 
@@ -325,6 +368,9 @@ def correspond(ctx):
         if d["grown"]:
             seen.add((d["line"], d["zeit"]))
     c.nontrivial = len(seen)
+    # the profile-depth clamp of the root limit must be exercised (deep-rooting crop, root limit at the profile depth)
+    if not c.dist.get("hit=root-clamp-N"):
+        c.mismatches.append({"kind": "coverage", "what": "no traced day on which round(WURZMAX*WUMAXPF/11) > N and the roots reached layer N"})
     ctx.extra["traced_runs"] = [r_["tag"] for r_ in runs]
     ctx.extra["traced_crop_days"] = sum(r_["cropdays"] for r_ in rr)
     ctx.extra["shadow_replayed_days"] = sum(r_["shadow_days"] for r_ in rr)
@@ -411,10 +457,7 @@ def replay(ctx, r):
         weather_scenarios(ex, ctx.seed)
         rows = build_rotation(rnd, [tuple(c) for c in sp["crops"]], sp["start"])
         y0, end = write_project(ex, "rp", rows, sp["nlevel"], rnd)
-        line = ("project=rp WeatherFolder=%s soilId=%s fcode=109_120 plotNr=10001 Altitude=73 Latitude=52.6732 poligonID=29872 "
-                "CO2method=%d CropParameterFormat=%s CropFileFormat=csv AutoIrrigation=0 AutoFertilization=0 AutoSowingHarvest=0 AutoHarvest=0 "
-                "StartYear=%d ResultFileFormat=0 EndDate=%s resultfolder=R9/rp"
-                % (sp["weather"], sp["soil"], sp["co2"], "yml" if sp["yml"] else "txt", y0, _d(12, 31, end[2])))
+        line = batch_line("rp", sp, y0, end)
         lf = os.path.join(ctx.work, "replay_lines.txt")
         open(lf, "w").write(json.dumps({"args": line, "yml": sp["yml"], "tag": "replay"}) + "\n")
         p = subprocess.run([ctx.harness(), "c09", "-work", ex, "-lines", lf, "-seed", "1", "-every", "1000000", "-max-interesting", "0"],
